@@ -1329,7 +1329,14 @@ def set_method(it, o: set, name):
     if name == 'copy':
         return Native('set.copy', lambda it2, a, k: set(o))
     if name in ('union', 'intersection', 'difference', 'issubset', 'issuperset', 'symmetric_difference'):
-        return Native('set.' + name, lambda it2, a, k: getattr(o, name)(*[set(it2.iterate(x)) for x in a]))
+        def setop(it2, a, k):
+            ov = getattr(it2, 'set_method_overrides', {}).get(name)
+            if ov is not None:
+                r = ov(it2, o, a, k)
+                if r is not NotImplemented:
+                    return r
+            return getattr(o, name)(*[set(it2.iterate(x)) for x in a])
+        return Native('set.' + name, setop)
     raise Unsupported(f'set.{name}')
 
 
